@@ -161,6 +161,10 @@ theorem refines_insert (p : PState) (sp : Spec) (h : Refines dim p sp)
     Refines dim (pInsert Pmin Pmax dist cfg dim p id vec md level).1 (sp.insert id vec md level).1 ∧
     (pInsert Pmin Pmax dist cfg dim p id vec md level).2 = (sp.insert id vec md level).2 := by
   unfold pInsert Spec.insert
+  by_cases hfit : mdFits md = false
+  · simp only [hfit, if_true]; exact ⟨h, trivial⟩
+  have hfit' : (mdFits md = false) = False := eq_false hfit
+  simp only [hfit', if_false]
   cases hr : insert Pmin Pmax dist cfg p.idx id vec md level with
   | error e =>
     have hl := insert_error (dist := dist) cfg p.idx id vec md level e hr
@@ -269,6 +273,10 @@ theorem refines_update (hp : PickOK pick) (p : PState) (sp : Spec) (h : Refines 
     rw [hdel] at hr1 hr2
     simp only at hr1 hr2
     simp only [hg, hmd, hlv]
+    by_cases hfit : mdFits (mergeMd md x.md) = false
+    · simp only [hfit, if_true]; exact ⟨h, trivial⟩
+    have hfit' : (mdFits (mergeMd md x.md) = false) = False := eq_false hfit
+    simp only [hfit', if_false]
     generalize hrem : pRemove Pmin Pmax dist cfg dim pick p id = rem at hr1 hr2
     obtain ⟨p1, o⟩ := rem
     simp only at hr1 hr2
@@ -299,6 +307,7 @@ theorem refines_batchFold (f : PState → BatchItem → PState × Outcome) (g : 
     | ok => exact ih p' sp' h1 errs
     | «exists» => exact ih p' sp' h1 _
     | notFound => exact ih p' sp' h1 _
+    | mdTooLarge => exact ih p' sp' h1 _
 
 /-- **Refinement, one log entry**: `process` (the model of `partition.process` and its callees,
 on top of the HNSW model) and the finite-map specification move in lock step — same
